@@ -28,6 +28,7 @@ import TonVerif.Proofs.BocOrder
 import TonVerif.Proofs.BocConform
 import TonVerif.Proofs.BocSemFinal
 import TonVerif.Proofs.SrcBocWidths
+import TonVerif.Proofs.SrcBocEmit
 
 namespace TonVerif.Properties.C04
 open TonVerif TonVerif.Model TonVerif.Spec.Boc TonVerif.Proofs.BocEmit TonVerif.Proofs.BocOrder TonVerif.Proofs.BocSem
@@ -313,5 +314,104 @@ example : Generated.cellsLen 256 = 2 ∧ Generated.payloadLen (Generated.maxOffs
   simp only [src_cellsLen_eq, src_payloadLen_eq, src_maxOffset_eq]; decide +kernel
 
 end Src
+
+/-! ### Source tie for the WHOLE emitter
+
+`Generated.BocEmitSrc.serialize / order / to_boc` are REGENERATED from `Cell.serialize`, `Cell.order`, `Cell.to_boc`
+(pytoniq_core/boc/cell.py) on every run (harness/translate/bocemit.py, pydict.py).  A constructed `Cell` is a `PCell`; a dict / set
+of cells is an insertion-ordered association list keyed by `PCell.key` (= `Cell.__hash__`; TonVerif/PyDict.lean); `while stack:`
+runs with an iteration budget `fuel`.  The theorems below show, for ALL cell objects, option sets and budgets, that the
+regenerated functions equal the hand model about which `c04_conforms` is proved — so the property holds for the regenerated
+emitter, and a change of any line of these methods breaks a proof obligation. -/
+section SrcEmit
+open TonVerif.Proofs.SrcBocEmit TonVerif.Proofs.SrcDict TonVerif.Generated.BocEmitSrc
+
+/-- `Cell.serialize(indexes, byte_len)` regenerated = the hand model's per-cell record: `_descriptors ++ _data_bytes ++` the
+`indexes[ref]` of every reference as `byte_len`-byte big-endian numbers, for every cell object, every dict (`m` = the same dict
+seen as the model's hash map) and every width; raises (KeyError, OverflowError) exactly when the model does. -/
+theorem c04_src_serialize (c : PCell) (idx : Py.KDict PCell Nat) (m : Std.HashMap Nat Nat) (w : Nat)
+    (h : MapSim PCell.key idx m) : serialize c idx w = (flattenOne m c).bind (Rec.ser w) :=
+  src_serialize_eq c idx m w h
+
+/-- … and `flattenCells` + `Rec.ser` of the hand model are exactly these per-cell records -/
+theorem c04_src_serialize_model (idx : Std.HashMap Nat Nat) (cells : List PCell) :
+    flattenCells idx cells = cells.mapM (flattenOne idx) := rfl
+
+/-- `Cell.order({})` regenerated = the hand model `PCell.order` for every cell object and every iteration budget: the explicit
+stack, the visited set, the post-order list and the re-insertion into the result dict produce the same key sequence (same
+decision to return); and the keys of the returned dict are pairwise distinct whatever the hash function is. -/
+theorem c04_src_order (fuel : Nat) (p : PCell) :
+    order fuel p [] = (p.order fuel).map dictOf ∧
+    ∀ d, order fuel p [] = some d → ((Py.dictKeys d).map PCell.key).Nodup := by
+  refine ⟨src_order_eq fuel p, fun d h => ?_⟩
+  have := order_nodup fuel p d h
+  simpa [NodupKeys, Py.dictKeys, Function.comp_def] using this
+
+/-- the iteration budget `6·cells + 2` always suffices for the regenerated `while stack:` loop (cells with ≤ 4 references,
+no hash collision among the cells at hand): `Cell.order` terminates and returns a VALID ORDER (root first, each distinct cell once,
+references strictly forward). -/
+theorem c04_src_order_total (root : PCell) (fuel : Nat) (h4 : ∀ c ∈ subcells root, c.refs.length ≤ 4) (nc : NoCollision root)
+    (hf : 6 * ((subcells root).map PCell.key).eraseDups.length + 2 ≤ fuel) :
+    ∃ d, order fuel root [] = some d ∧ ValidOrder root (Py.dictKeys d) := by
+  obtain ⟨ord, ho, vo⟩ := order_fuel_valid root fuel h4 nc hf
+  refine ⟨dictOf ord, by rw [src_order_eq, ho]; rfl, ?_⟩
+  rwa [dictKeys_dictOf]
+
+/-- `Cell.to_boc(has_idx, hash_crc32, has_cache_bits, flags)` regenerated = the hand model `PCell.toBoc` for every cell object
+(any DAG behind it), EVERY option set (also invalid ones) and every iteration budget: flags byte, size / offset widths, counts,
+root index, index of cumulative (doubled) end offsets, cell records, CRC-32C — the same bytes, the same decision to raise. -/
+theorem c04_src_to_boc (fuel : Nat) (p : PCell) (o : Opts) :
+    to_boc fuel p o.hasIdx o.hasCrc o.hasCache o.flags = p.toBoc fuel o := src_toBoc_eq fuel p o
+
+/-- **C04 for the REGENERATED emitter**: for every spec-valid typed tree `t`, its object graph `p`, under the local no-collision
+hypothesis, whenever the regenerated `Cell.order` returns the dict `d` (it does with budget `6·cells+2`: `c04_src_order_total`),
+for each of the 6 valid option sets and within the format's limits: the keys of `d` are a valid order, the regenerated
+`Cell.to_boc` returns bytes, and the independent strict reader ACCEPTS them and decodes them to exactly `[t]`. -/
+theorem c04_src_conforms (H : Bytes → Bytes) (t : Cell) (wf : TreeWF H t) (ty : Typed t) (p : PCell)
+    (hb : Cell.build H t = some p) (nc : NoCollision p) (fuel : Nat) (d : Py.KDict PCell Unit) (h : order fuel p [] = some d)
+    (o : Opts) (hv : o.valid = true) (hn : (Py.dictKeys d).length < 2 ^ 32)
+    (hP : (payloadOf (sizeW (orderRecs (Py.dictKeys d))) (orderRecs (Py.dictKeys d))).length * 2 < 2 ^ 64) :
+    ValidOrder p (Py.dictKeys d) ∧
+    ∃ bs, to_boc fuel p o.hasIdx o.hasCrc o.hasCache o.flags = some bs ∧ strictParse H bs = some [toSCell t] := by
+  rw [src_order_eq] at h
+  cases ho : p.order fuel with
+  | none => rw [ho] at h; cases h
+  | some ord =>
+    rw [ho] at h
+    simp only [Option.map_some, Option.some.injEq] at h
+    subst h
+    rw [dictKeys_dictOf] at hn hP ⊢
+    rw [src_toBoc_eq]
+    exact c04_conforms H t wf ty p hb nc fuel ord ho o hv hn hP
+
+/-- the same with existence and termination, nothing assumed but spec-validity and the local no-collision hypothesis: the tree
+can be built, the regenerated `Cell.order` returns with the driver's budget, and within the format's size limits every valid
+option set gives bytes the strict reader accepts and that denote `[t]`.  (Non-vacuity of the hypotheses: the `sampleTree`
+example above.) -/
+theorem c04_src_conforms_total (H : Bytes → Bytes) (t : Cell) (wf : TreeWF H t) (ty : Typed t) :
+    ∃ p, Cell.build H t = some p ∧ ∀ (_ : NoCollision p) (fuel : Nat)
+      (_ : 6 * ((subcells p).map PCell.key).eraseDups.length + 2 ≤ fuel),
+      ∃ d, order fuel p [] = some d ∧ ValidOrder p (Py.dictKeys d) ∧
+        ∀ (o : Opts), o.valid = true → (Py.dictKeys d).length < 2 ^ 32 →
+          (payloadOf (sizeW (orderRecs (Py.dictKeys d))) (orderRecs (Py.dictKeys d))).length * 2 < 2 ^ 64 →
+          ∃ bs, to_boc fuel p o.hasIdx o.hasCrc o.hasCache o.flags = some bs ∧ strictParse H bs = some [toSCell t] := by
+  obtain ⟨p, hb⟩ := tree_builds H t wf
+  refine ⟨p, hb, ?_⟩
+  intro nc fuel hf
+  have okp := build_ok H t p (shape_of H t wf ty) hb
+  obtain ⟨d, hd, vo⟩ := c04_src_order_total p fuel (fun c hc => (okp c hc).refs_le) nc hf
+  refine ⟨d, hd, vo, ?_⟩
+  intro o hv hn hP
+  exact (c04_src_conforms H t wf ty p hb nc fuel d hd o hv hn hP).2
+
+/-- non-vacuity, evaluated: on the diamond DAG (root → m1, m2 → shared leaf) the regenerated `Cell.order` returns the four
+distinct cells root first, and the regenerated `to_boc` with index + CRC + cache bits returns bytes -/
+example : (order 50 Proofs.BocOrder.Example.root []).map (fun d => (Py.dictKeys d).map PCell.key) =
+      some ([Proofs.BocOrder.Example.root, Proofs.BocOrder.Example.m1, Proofs.BocOrder.Example.m2,
+        Proofs.BocOrder.Example.leaf].map PCell.key) ∧
+    (to_boc 50 Proofs.BocOrder.Example.root true true true 0).isSome = true := by
+  constructor <;> decide +kernel
+
+end SrcEmit
 
 end TonVerif.Properties.C04
